@@ -146,10 +146,8 @@ example :
          (1, some (1, 20), some (1, 10))] := by
   decide
 
-/-! ### Interval join (executable model and specification only; `intervalJoin_correct` is not proved yet:
-    full statement — for every timestamp-sorted iteration `es ++ [far]` of timestamped `(key, Left l | Right r)`
-    elements (timestamps ≥ 0), the timestamped outputs of `IntervalJoin.step` folded over it are a permutation
-    of `IntervalJoin.spec lower upper L R`, followed by `far`, and the state is initial again) -/
+/-! ### Interval join: the theorems (`intervalJoin_correct`, `intervalJoin_correct_int`, `intervalJoin_after_reorder`,
+    `intervalJoin_resets`, `intervalJoin_preserves_grammar/_wmsafe`) are in `Props/C08Interval.lean`. -/
 
 /-- Non-vacuity of the interval-join model against its specification on a boundary instance
     (`lower = 2`, `upper = 1`: `r.ts ∈ [l.ts - 2, l.ts + 1]`; pairs at both closed ends, one just outside). -/
